@@ -492,7 +492,9 @@ func (p *InlineParser) parse(source []byte, container *Block) []*Inline {
 
 					pos = span.End
 					plainStart = pos
-					if i := nodeIndexForPosition(state.unparsed[state.unparsedPos:], pos); i >= 0 {
+					// Continue in the span that holds the last byte of the tag
+					// (the tag may end exactly at the end of a span).
+					if i := nodeIndexForPosition(state.unparsed[state.unparsedPos:], pos-1); i >= 0 {
 						state.unparsedPos += i
 					} else {
 						state.unparsedPos = len(state.unparsed)
